@@ -2,6 +2,7 @@ import BFL.Proofs.RaceTable
 import BFL.Proofs.RacePhase
 import BFL.Proofs.RaceScoped
 import BFL.Proofs.RaceObject
+import BFL.Proofs.RaceConfine
 /-
 C10 — the control interface may be used from another thread without data races.
 
@@ -134,6 +135,44 @@ theorem table_reach_certified (r : Role) (m : Nat) :
     lock only when mutex and member are reached through the same `this`, in the function itself or in
     callers along calls on `this`; functions handing out references / pointers / `Eigen::Ref` get none) -/
 theorem table_locks_certified : table.locksCertifiedB = true := locks_certified
+
+/-! ### thread confinement of the user's model objects (the skip path stops at the flags) -/
+
+/-- General (every table): a member no controller-reachable function has a row for is never accessed
+    by the controller thread, in any interleaving that conforms to the table. -/
+theorem controller_free_no_access (T : Table) (f : Nat) (h : ControllerFree T f) {tr : List Ev}
+    (hc : Conforms T tr) (pre post : List Ev) (o : Obj) (w s : Bool) :
+    tr ≠ pre ++ Ev.acc .controller (o, f) w s :: post :=
+  BFL.Race.controller_free_no_access T f h hc pre post o w s
+
+/-- For every table and every certified controller reach set: if the model-state pseudo-members are
+    *confined* (`modelConfinedIn`: they exist, the filtering role writes them, no controller-reachable
+    function has a row for them), the controller thread never accesses them in a conforming interleaving —
+    no control command calls into the user's measurement model, likelihood model or particle initialisation.
+    Confinement is **stronger than the property** (a command may legitimately call `freeze()` under a mutex the
+    filtering thread also takes): whether the current table is confined is *not* an obligation; it is evaluated
+    in `BFL/Props/C10Confine.lean`, built separately, and only recorded in the evidence (`confinement_lost`).
+    What decides is the lockset discipline over the pseudo-members (`table_disciplined`, `race_free`). -/
+theorem model_confined (T : Table) (SC SF : Nat) (hC : ReachCert T .controller SC)
+    (h : T.modelConfinedIn SC SF = true) (f : Nat) (hf : f ∈ T.fieldIds modelStateFields) {tr : List Ev}
+    (hc : Conforms T tr) (pre post : List Ev) (o : Obj) (w s : Bool) :
+    tr ≠ pre ++ Ev.acc .controller (o, f) w s :: post := by
+  unfold Table.modelConfinedIn at h
+  simp only [Bool.and_eq_true, List.all_eq_true] at h
+  exact BFL.Race.controller_free_no_access T f
+    (controllerFree_of_cert hC f (h.2 f hf).1) hc pre post o w s
+
+/-- The same for the hooks of the user's filter (`initialization_step`, `filtering_step`, `run_condition`,
+    `log` and their overriders): for every table in which `user::hook_state` is confined, the controller
+    thread never touches the state behind the hooks. -/
+theorem hooks_confined (T : Table) (SC SF : Nat) (hC : ReachCert T .controller SC)
+    (h : T.confinedIn hookStateFields SC SF = true) (f : Nat) (hf : f ∈ T.fieldIds hookStateFields) {tr : List Ev}
+    (hc : Conforms T tr) (pre post : List Ev) (o : Obj) (w s : Bool) :
+    tr ≠ pre ++ Ev.acc .controller (o, f) w s :: post := by
+  unfold Table.confinedIn at h
+  simp only [Bool.and_eq_true, List.all_eq_true] at h
+  exact BFL.Race.controller_free_no_access T f
+    (controllerFree_of_cert hC f (h.2 f hf).1) hc pre post o w s
 
 /-- **must hold — the join is certified from the table**: the filtering thread performs no operation on
     a thread handle; the controller spawns only in `boot()`, joins only in `wait()`, and otherwise only
